@@ -96,6 +96,41 @@ func ruleTOrderHeap(w *World, r *Report) {
 				return
 			}
 			n++
+			// the node's item may be chosen on several paths (`it := a; if c { it = b }`): one
+			// case per incoming value, each with what is known on that edge
+			if ph, isPhi := mk.Common().Args[1].(*ssa.Phi); isPhi && !isLoopHeaderPhi(ph) {
+				var keys []string
+				bad := ""
+				for i, e := range ph.Edges {
+					if isNilConst(e) {
+						continue
+					}
+					env := newEnv()
+					env.vals[ph] = e
+					xc := &textract{w: w, fn: fn, env: env}
+					nt := xc.nodeTerm(mk)
+					f := xc.factsAtBlock(mk.Block(), baseFactsFor(name))
+					for _, cf := range edgeFacts(ph, i, 0) {
+						xc.addFact(f, cf)
+					}
+					p := &tprover{f: f, busy: map[string]bool{}}
+					keys = append(keys, nt.String())
+					if !(p.bound(nt.a, nt.key, -1) && p.bound(nt.b, nt.key, +1)) {
+						bad = fmt.Sprintf("case %s: cannot prove left < %s < right", nt, nt.key)
+					}
+					if !strings.HasPrefix(nt.item, "item(SM(") && !(p.ple(nt.a, nt.prio) && p.ple(nt.b, nt.prio)) {
+						bad = fmt.Sprintf("case %s: cannot prove that the priorities below are <= %s", nt, nt.prio)
+					}
+				}
+				key := fmt.Sprintf("%s › mkNode#%d %s", name, n, strings.Join(keys, " | "))
+				if bad == "" {
+					r.OK("T-order", key, w.InstrPos(mk), "order proved for every value the node's item can take here")
+					r.OK("T-heap", key, w.InstrPos(mk), "heap order proved (or equal-key replacement) for every value the node's item can take here")
+				} else {
+					r.Bad("T-order", key, w.InstrPos(mk), bad+": the tree built here need not be a search tree / heap")
+				}
+				return
+			}
 			nt := x.nodeTerm(mk)
 			f := x.factsAtBlock(mk.Block(), baseFactsFor(name))
 			p := &tprover{f: f, busy: map[string]bool{}}
@@ -167,9 +202,17 @@ func successReturns(w *World, fn *ssa.Function, base *tfacts) []tret {
 		}
 		// facts: of the return block, plus those of every block on the trail (path facts)
 		f := base.clone()
-		for _, b := range trail {
+		for i, b := range trail {
 			bf := x.factsAtBlock(b, newFacts())
 			mergeFacts(f, bf)
+			// the arm taken out of b on this path (a merge point further on is not dominated by it)
+			if i+1 < len(trail) && len(b.Instrs) > 0 {
+				if ifi, isIf := b.Instrs[len(b.Instrs)-1].(*ssa.If); isIf && b.Succs[0] != b.Succs[1] {
+					for _, cf := range condFacts(ifi.Cond, b.Succs[0] == trail[i+1], 0) {
+						x.addFact(f, cf)
+					}
+				}
+			}
 		}
 		sig := fmt.Sprintf("%d:%s", ret.Block().Index, strings.Join(parts, ";"))
 		if seen[sig] {
